@@ -47,6 +47,10 @@ type Case struct {
 	// StdKind selects the dynamic type of that source: bytes.Reader (default), bytes.Buffer, strings.Reader,
 	// bufio.Reader, os.File, io.SectionReader - loaders must not behave differently for any of them
 	StdKind string `json:"std_kind,omitempty"`
+	// PastEnd > 0 (seekable standard readers only): the reader is positioned that many bytes BEYOND its end before
+	// the load (a fixed-size header skipped with Seek in a file that turned out shorter); there is nothing to
+	// replay, and nothing to panic about
+	PastEnd int `json:"past_end,omitempty"`
 	// Seekable: the instrumented (short-reading, possibly failing) source also implements io.Seeker
 	Seekable bool `json:"seekable,omitempty"`
 }
@@ -173,9 +177,16 @@ func check(c Case) (kind, what string, nt bool) {
 	if c.Std > 0 {
 		r, remaining, cleanup := stdSource(c.StdKind, c.Std-1, c.Data)
 		defer cleanup()
+		past := false
+		if sk, ok := r.(io.Seeker); ok && c.PastEnd > 0 {
+			if _, err := sk.Seek(int64(c.PastEnd), io.SeekEnd); err == nil {
+				past = true
+				c.Data = nil
+			}
+		}
 		o = ld.Run(c.Loader, r)
 		s.Pos = -1
-		if n := remaining(); n >= 0 {
+		if n := remaining(); n >= 0 && !past {
 			s.Pos = int64(len(c.Data)) - int64(n)
 		}
 	} else if c.ChainLoader != "" {
@@ -546,6 +557,9 @@ func TestC07(t *testing.T) {
 		if c.FaultAt < 0 && rapid.IntRange(0, 3).Draw(rt, "stdreader") == 0 {
 			c.Std = 1 + rapid.IntRange(0, 100).Draw(rt, "prefix")
 			c.StdKind = rapid.SampledFrom(stdKinds).Draw(rt, "stdkind")
+			if rapid.IntRange(0, 7).Draw(rt, "pastend") == 0 {
+				c.PastEnd = rapid.SampledFrom([]int{1, 7, 4096, 1 << 20}).Draw(rt, "pastendby")
+			}
 		}
 		c.DataWithEOF = rapid.Bool().Draw(rt, "dataeof")
 		c.Drain = rapid.SliceOfN(rapid.SampledFrom([]int{1, 2, 3, 100, 4096, 32768, 0}), 1, 4).Draw(rt, "drain")
